@@ -1,7 +1,7 @@
 (* Comparators used by the generated correspondence files of C19
    (harness/props/c19.py). *)
 From FrameModel Require Import Num.QcTac Geometry.Rect Cases.Cmp Alloc.Alloc Cases.CmpAlloc Yaml.Tree
-  Yaml.NetlistRead Yaml.NetlistWrite Cases.CmpC0405 Yaml.Netgen Yaml.DieAlloc Yaml.Producers.
+  Yaml.NetlistRead Yaml.NetlistWrite Cases.CmpC0405 Yaml.Netgen Yaml.DieAlloc Yaml.Producers Cases.CmpC19Free.
 Open Scope Qc_scope.
 
 (* document trees: numbers within k roundings; the int/float form of a number
@@ -93,15 +93,17 @@ Definition loaded_ok (epsdef : option (Qc * Qc)) (t : ytree) (o : nl_observed) :
 
 (* a netlist producer: the model's document against the observed one, and the
    model of the reader against the real reader on the observed document *)
+(* the documents are compared by what they say (Cases/CmpC19Free.v): modules, nets and rectangles
+   in order, the attributes of a module and the top-level keys in any order *)
 Definition producer_ok (k : Z) (model : option ytree) (observed : option ytree) (o : nl_observed) : bool :=
-  otree_sim k model observed &&
+  onetlist_doc_sim k model observed &&
   match observed with
   | Some t => loaded_ok None t o
   | None => true
   end.
 
 Definition producer_ok_noloc (k : Z) (model : option ytree) (observed : option ytree) (o : nl_observed) : bool :=
-  otree_sim k model observed &&
+  onetlist_doc_sim k model observed &&
   match observed with
   | Some t => loaded_ok_gen module_sim_noloc None t o
   | None => true
@@ -119,8 +121,11 @@ Definition rects_eqb := list_eqb rect_eqb.
 Definition die_eqb (a b : die) : bool :=
   Qceqb (dw a) (dw b) && Qceqb (dh a) (dh b) && rects_eqb (dblock a) (dblock b) &&
   rects_eqb (dspec a) (dspec b).
+(* the written die against the model's by what the reader makes of either (blockages in order,
+   specialised regions in order, width, height): how the two classes are interleaved in the list
+   is not part of what the document says *)
 Definition die_ok (d : die) (written : ytree) (loaded : option die) : bool :=
-  ytree_sim 0 (write_die d) written && opt_eqb die_eqb (read_die written) loaded.
+  die_doc_sim (write_die d) written && opt_eqb die_eqb (read_die written) loaded.
 
 (* the allocation *)
 Definition alloc_case_ok (aeps : Qc) (cells : list cell) (written : ytree) (loaded : option (list cell)) : bool :=
